@@ -23,6 +23,33 @@ type PropConfig struct {
 	Writers       []WriterSpec `json:"writers"`
 }
 
+// protectedRegions: field regions whose complete writer set is known (and checked by
+// the writers scan): a call preserves such a region unless it may reach a writer.
+func protectedRegions(ws []WriterSpec) map[string]map[string]bool {
+	out := map[string]map[string]bool{}
+	for _, w := range ws {
+		if w.Kind != "field" {
+			continue
+		}
+		i := strings.LastIndex(w.Target, ".")
+		if i < 0 {
+			continue
+		}
+		typ, field := w.Target[:i], w.Target[i+1:]
+		pkg := typ[:strings.LastIndex(typ, ".")]
+		set := map[string]bool{}
+		for _, a := range w.Allowed {
+			if strings.Contains(a, "::") {
+				set[a] = true
+			} else {
+				set[pkg+"::"+a] = true
+			}
+		}
+		out["F_"+sanitize(typ)+"."+field] = set
+	}
+	return out
+}
+
 type KnownFinding struct {
 	Property   string `json:"property"`
 	Obligation string `json:"obligation"`
@@ -126,6 +153,7 @@ func cmdCheck(args []string) int {
 		return 1
 	}
 	eng.loadSecs = time.Since(tl).Seconds()
+	eng.protected = protectedRegions(cfg.Writers)
 
 	// generate
 	var units []*Unit
